@@ -5,6 +5,7 @@ import (
 	"flag"
 	"fmt"
 	"os"
+	"os/exec"
 	"path/filepath"
 	"regexp"
 	"sort"
@@ -142,6 +143,11 @@ var levelOf = map[string]string{
 }
 
 func writeEvidence(prop, tier string, seed int64, st *stats, rn *runner, variants []*variant, violations, known int, wall time.Duration, nplans int) {
+	var covFuncs map[string]string
+	var covZero []string
+	if tier == "thorough" || os.Getenv("VERIF_COVER") != "" {
+		covFuncs, covZero = coverageProbes(rn, prop, tier, seed, 150)
+	}
 	level := levelOf[prop]
 	if level == "" {
 		level = "exploration"
@@ -180,6 +186,9 @@ func writeEvidence(prop, tier string, seed int64, st *stats, rn *runner, variant
 		"faults_fired":         st.faults,
 		"reach_probes":         st.probes,
 		"probes_at_zero":       zero,
+		"anchor_function_statement_coverage": covFuncs,
+		"anchor_functions_never_reached":     covZero,
+		"note_coverage":        "statement coverage of the anchor functions measured with Go's coverage instrumentation on a sample of 150 plans (variant plain-cover); only in the thorough tier or with VERIF_COVER=1",
 		"distinct_plans":       len(st.planHashes),
 		"distinct_interleavings": len(st.interleave),
 		"interleaving_measure": "hash of the sequence of (yield counter, site, from-task, to-task) of all task switches of a run",
@@ -354,4 +363,87 @@ func diffKeys(a, b string) string {
 	}
 	sort.Strings(ks)
 	return strings.Join(ks, "\n      ")
+}
+
+// anchorFuncs: the functions named in the property anchors whose branches the
+// simulation is supposed to reach; their statement coverage (Go's own
+// coverage instrumentation, variant plain-cover, a sample of the plans) is
+// reported as reach probes, a probe at 0 % is listed as a warning.
+var anchorFuncs = map[string][]string{
+	"C09": {"read", "readBuf", "literalBytes", "stringBytes", "decodeEscapeString", "decodeUnicodeRune", "readAtLeast", "skipValue", "skipObject", "skipArray", "decodeKeyNotFoundStream", "decodeKeyCharByEscapeCharStream", "decodeKeyCharByUnicodeRuneStream", "floatBytes", "Token", "More", "PrepareForDecode", "Buffered", "ReadErr"},
+	"C06": {"skipValue", "skipObject", "skipArray", "compactValue", "indentValue", "Build", "buildQuoteSelector", "buildIndex", "AssignValue", "castValue", "validateEndBuf", "read"},
+	"C11": {"TakeRuntimeContext", "ReleaseRuntimeContext", "Init", "getFilteredCodeSetIfNeeded", "extractFromPath", "NewMapContext", "ReleaseMapContext", "releaseSlice", "newSlice"},
+	"C12": {"unmarshal", "marshal", "marshalIndent", "readBuf", "reset", "releaseSlice", "copySlice", "unquoteBytes"},
+	"C10": {"CompileToGetCodeSet", "CompileToGetDecoder", "compileToGetCodeSetSlowPath", "compileToGetDecoderSlowPath", "storeOpcodeSet", "storeDecoder", "getQueryCache", "setQueryCache", "Hash"},
+	"C14": {"CompileToGetCodeSet", "CompileToGetDecoder", "compileToGetCodeSetSlowPath", "compileToGetDecoderSlowPath", "AnalyzeTypeAddr", "initEncoder", "initDecoder"},
+	"C19": {"getFilteredCodeSetIfNeeded", "Filter", "Hash", "getQueryCache", "setQueryCache", "Build", "QueryString"},
+	"C20": {"extractFromPath", "DecodePath", "Field", "Index", "Get", "Build", "buildSelector", "buildIndex", "buildQuoteSelector", "buildPathRecursive"},
+}
+
+// coverageProbes runs a sample of plans on the cover variant and returns the
+// statement coverage of the anchor functions.
+func coverageProbes(rn *runner, prop, tier string, seed int64, sample int) (map[string]string, []string) {
+	v, err := rn.b.build("plain-cover")
+	if err != nil {
+		return map[string]string{"error": err.Error()}, nil
+	}
+	dir := filepath.Join(rn.b.scratch, "covdata")
+	os.MkdirAll(dir, 0o755)
+	var wg sync.WaitGroup
+	sem := make(chan struct{}, 16)
+	for i := 0; i < sample; i++ {
+		i := i
+		wg.Add(1)
+		sem <- struct{}{}
+		go func() {
+			defer wg.Done()
+			defer func() { <-sem }()
+			rn.execEnv(v, rn.timeout, []string{"GOCOVERDIR=" + dir, "VERIF_STEP_BUDGET=" + rn.stepBudget().String()},
+				"exec", "-prop", prop, "-seed", fmt.Sprint(seed), "-index", fmt.Sprint(i*3), "-tier", tier, "-noplan", "-variant", "plain")
+		}()
+	}
+	wg.Wait()
+	cmd := exec.Command("go", "tool", "covdata", "func", "-i="+dir)
+	cmd.Env = goEnv()
+	out, err := cmd.Output()
+	if err != nil {
+		return map[string]string{"error": "go tool covdata: " + err.Error()}, nil
+	}
+	want := map[string]bool{}
+	for _, f := range anchorFuncs[prop] {
+		want[f] = true
+	}
+	res := map[string]string{}
+	var zero []string
+	for _, line := range strings.Split(string(out), "\n") {
+		fs := strings.Fields(line)
+		if len(fs) != 3 || !strings.Contains(fs[0], "goccy/go-json") {
+			continue
+		}
+		name := fs[1]
+		if i := strings.LastIndex(name, ")."); i >= 0 {
+			name = name[i+2:] // method: (*Stream).read
+		} else if i := strings.LastIndex(name, "."); i >= 0 {
+			name = name[i+1:]
+		}
+		if !want[name] {
+			continue
+		}
+		loc := fs[0]
+		if i := strings.Index(loc, "go-json"); i >= 0 {
+			loc = loc[i+len("go-json"):]
+			if j := strings.Index(loc, "/"); j >= 0 {
+				loc = loc[j+1:]
+			}
+		}
+		loc = strings.TrimSuffix(loc, ":")
+		key := fs[1] + " (" + loc + ")"
+		res[key] = fs[2]
+		if fs[2] == "0.0%" {
+			zero = append(zero, key)
+		}
+	}
+	sort.Strings(zero)
+	os.RemoveAll(dir)
+	return res, zero
 }
